@@ -65,6 +65,7 @@ func verifFDContent(f *os.File) string
 func verifFDIsName(f *os.File, name string) bool
 func verifStdout() string
 func verifTempDir() string
+func verifMaybeUnencodable() any
 func verifNameEq(a, b string) bool
 func verifNoLocksHeld() bool
 func verifCaptureStd()
